@@ -544,6 +544,24 @@ pub fn c10(g: &mut Gen) {
         let netc = NetSpec { input: Shape::Triple(1, 4, 4), builds: vec![Build::Feedback { inner: vec![c1, c2], loops, inskips: false, outskips: false, acc: "mean".into() }],
             skipacc: "add".into(), loopacc: "mean".into(), opt: None, obj: "mse".into(), clamp: None };
         g.push(format!("net {} shapes", netc.token()), Tol::Exact, &format!("parameters/heterogeneous-conv/L{}", loops), true);
+        // … and such widening-then-narrowing blocks (more filters than channels read, and the reverse) stay tied
+        // when trained: convolution 1→3→1 and deconvolution 1→2→1, every filter of every copy
+        if loops >= 2 {
+            let w1 = InnerSpec::Conv { filters: 3, act: "tanh".into(), k: (3, 3), s: (1, 1), p: (1, 1), d: (1, 1), dropout: None, ks: (0..3).map(|_| weights(g, &Shape::Triple(1, 3, 3), 0.4)).collect() };
+            let w2 = InnerSpec::Conv { filters: 1, act: "tanh".into(), k: (1, 1), s: (1, 1), p: (0, 0), d: (1, 1), dropout: None, ks: vec![weights(g, &Shape::Triple(3, 1, 1), 0.4)] };
+            let mut netw = NetSpec { input: Shape::Triple(1, 4, 4), builds: vec![Build::Feedback { inner: vec![w1, w2], loops, inskips: false, outskips: false, acc: ["mean", "add"][loops % 2].into() },
+                Build::Layer(dense_spec(g, &cfg, 16, 2, "tanh", true))], skipacc: "add".into(), loopacc: "mean".into(), opt: None, obj: "mse".into(), clamp: None };
+            netw.opt = Some(opts[loops % opts.len()].clone());
+            let sw = samples_tok(g, &netw, &Sh::Flat(2), 2);
+            g.push(format!("net {} learn 2 {} 0 1 2 0", netw.token(), sw), Tol::Loose, &format!("learn/widening-conv/L{}", loops), true);
+            let v1 = InnerSpec::Deconv { filters: 2, act: "tanh".into(), k: (1, 1), s: (1, 1), p: (0, 0), dropout: None, ks: (0..2).map(|_| weights(g, &Shape::Triple(1, 1, 1), 0.6)).collect() };
+            let v2 = InnerSpec::Deconv { filters: 1, act: "sigmoid".into(), k: (3, 3), s: (1, 1), p: (1, 1), dropout: None, ks: vec![weights(g, &Shape::Triple(2, 3, 3), 0.4)] };
+            let mut netv = NetSpec { input: Shape::Triple(1, 3, 4), builds: vec![Build::Feedback { inner: vec![v1, v2], loops, inskips: false, outskips: false, acc: ["add", "mean"][loops % 2].into() }],
+                skipacc: "add".into(), loopacc: "mean".into(), opt: None, obj: "mse".into(), clamp: None };
+            netv.opt = Some(opts[(loops + 2) % opts.len()].clone());
+            let sv = samples_tok(g, &netv, &Sh::Vol(1, 3, 4), 2);
+            g.push(format!("net {} learn 2 {} 0 2 2 0", netv.token(), sv), Tol::Loose, &format!("learn/widening-deconv/L{}", loops), true);
+        }
     }
     // the `overwrite` coupling is not implemented: training such a block is refused
     let (mut net, out) = block_net(g, &cfg, 2, false, false, "overwrite", false, true, false);
